@@ -7,14 +7,14 @@ ENGINE = "EP"
 N = {"quick": 900, "thorough": 60000}
 TIME = {"quick": 45, "thorough": 480}
 RULE = ("Same episode generator as C07 (delay d in 0..3, latency {0,5,30}s, extra quotes placed at L-1ms, L, L+1ms and mid-gap, "
-        "late folds), Box spaces with per-step unique actions (step index encoded in the weights) and Discrete spaces (every other "
+        "late folds; every third case runs a second episode on the same environment), Box spaces with per-step unique actions (step index encoded in the weights) and Discrete spaces (every other "
         "case). Oracle: the allocation executed at decision k equals the allocation denoted by the action submitted at k-d (null "
         "action for k<d: zero weights / discrete action 0), i.e. the executed sequence is a prefix-aligned copy of the submitted "
         "one; every trade is priced at the last quote IN THE INPUT STREAM stamped <= t_(k) + latency (computed from the stream, not "
         "from the exchange). Non-trivial = delay >= 1 or latency > 0, with >= 3 decisions.")
 ASSUMPTIONS = ["bar-shaped streams; latency below the minimum timestep gap"]
 REQUIRED = ["C08:fifo-delay", "C08:latency-pricing"]
-REQUIRED_CATS = ["C08:null-executed", "C08:delayed-executed", "discrete", "box", "delay:0", "delay:1", "delay:2", "delay:3",
+REQUIRED_CATS = ["repeated-episode", "C08:null-executed", "C08:delayed-executed", "discrete", "box", "delay:0", "delay:1", "delay:2", "delay:3",
                  "latency:5", "latency:30"]
 REQUIRED_HITS = ["Broker.rebalance"]
 TECHNIQUE = "runtime monitoring: executed allocations and trade prices compared with the submitted action sequence and the input quote stream"
@@ -28,3 +28,7 @@ def case(ctx, i, tier):
     discrete = i % 2 == 1
     cfg, outs = epl.ledger_episode(ctx, {"C08"}, chain=(i % 10 == 8), discrete=discrete)
     ctx.nontrivial = len(outs) >= 3 and (cfg["d"] >= 1 or cfg["L"] > 0)
+    if i % 3 == 0:
+        # a second episode on the SAME environment: the null action must again be
+        # executed for the first d steps (pending decisions of episode 1 are gone)
+        epl.ledger_episode(ctx, {"C08"}, prebuilt=cfg["_prebuilt"])
